@@ -196,6 +196,8 @@ async def run_history(loop: vclock.VLoop, hist: dict) -> dict:
             await vclock.quiesce()
             if gap:
                 await asyncio.sleep(gap)
+            if str(i) in (hist.get("date_jumps") or {}):  # the wall clock moves on (a night passes) without loop time being spent
+                vclock.STATE.skew += float(hist["date_jumps"][str(i)])
             if str(i) in pauses:  # a long silence (NB: costly - the transport's 50 ms write-gap ticker keeps running)
                 await asyncio.sleep(pauses[str(i)])
         await do_ops(len(frames))
